@@ -587,4 +587,47 @@ Proof.
   cbn [Vm.veq]. destruct (f_cmp F r r) as [[]|]; try reflexivity. congruence.
 Qed.
 
+(* more fuel never changes an answer other than "out of fuel" (whatever the answer: value, Err, UB, crash) *)
+Lemma owned_rows_mono rec1 rec2 eq m ks :
+  (forall v, rec1 v <> CvFuel -> rec2 v = rec1 v) ->
+  owned_rows rec1 eq m ks <> CvFuel -> owned_rows rec2 eq m ks = owned_rows rec1 eq m ks.
+Proof.
+  intros H. induction ks as [|k ks IH]; cbn [owned_rows]; intros NF; [reflexivity|].
+  destruct (map_find eq k m) as [[[i v]|]|]; [|apply IH; exact NF | reflexivity].
+  assert (K : rec2 k = rec1 k) by (apply H; intros E; apply NF; rewrite E; reflexivity).
+  rewrite K. destruct (rec1 k) as [ok| | | |]; cbn [cv_bind] in *; try reflexivity.
+  assert (V : rec2 v = rec1 v) by (apply H; intros E; apply NF; rewrite E; reflexivity).
+  rewrite V. destruct (rec1 v) as [ov| | | |]; cbn [cv_bind] in *; try reflexivity.
+  rewrite IH; [reflexivity|]. intros E. apply NF. rewrite E. reflexivity.
+Qed.
+
+Lemma owned_of_mono h : forall f v, owned_of F f h v <> CvFuel -> owned_of F (S f) h v = owned_of F f h v.
+Proof.
+  induction f as [|f IH]; intros v NF; [exfalso; apply NF; reflexivity|].
+  change (owned_of F (S (S f)) h v) with
+    (match v with
+     | VNil => CvOk ONil | VInt z => CvOk (OInt z) | VReal r => CvOk (OReal r)
+     | VObj a =>
+         match hget h a with
+         | None => CvUb
+         | Some (Vm.OTable t) =>
+             cv_bind (owned_rows (owned_of F (S f) h) (veq h) (tmap t) (tkeys t)) (fun l => CvOk (OTable l))
+         | Some (Vm.OStr s) => CvOk (OStr s)
+         | Some _ => CvErr v
+         end
+     end).
+  cbn [owned_of] in NF |- *.
+  destruct v as [|z|r|a]; try reflexivity.
+  destruct (hget h a) as [[t|s|? ?|?|? ? ?|?]|]; try reflexivity.
+  rewrite (owned_rows_mono (owned_of F f h) (owned_of F (S f) h)); [reflexivity | exact IH |].
+  intros E. apply NF. rewrite E. reflexivity.
+Qed.
+
+Lemma owned_of_stable h v : forall f1 f2, f1 <= f2 -> owned_of F f1 h v <> CvFuel ->
+  owned_of F f2 h v = owned_of F f1 h v.
+Proof.
+  intros f1 f2 L NF. induction L as [|f2 L IH]; [reflexivity|].
+  rewrite owned_of_mono; [exact IH | rewrite IH; exact NF].
+Qed.
+
 End OwnedProofs.
